@@ -487,3 +487,66 @@ Qed.
 
 Theorem mconsistent_init : MWf m_init /\ MConsistent m_init.
 Proof. split; [apply mwf_init|]. intro u. apply consistent_init. Qed.
+
+(* ---------- the whole machine ---------- *)
+Lemma agg_labels_ext f g svc : (forall s, f s = g s) -> agg_labels f svc = agg_labels g svc.
+Proof.
+  intro H. unfold agg_labels. generalize (@nil (N * list N)) as ls.
+  induction svc as [|sb r IH]; intro ls; simpl; [reflexivity|]. rewrite H. apply IH.
+Qed.
+
+Lemma fstep_ext fx f g st o : (forall s, f s = g s) -> fstep fx f st o = fstep fx g st o.
+Proof.
+  intro H. destruct o; simpl; try reflexivity; unfold f_write, apply_label_changes;
+    now rewrite (agg_labels_ext f g _ H).
+Qed.
+
+Definition MInv (n : nat) (s : mstate) : Prop := MWf s /\ forall u, Inv n (view s u).
+
+Lemma sized_feqv n a b : feqv a b -> Sized n b -> Sized n a.
+Proof. intros E S k arr. rewrite (proj1 (E k)). apply S. Qed.
+
+Theorem machine_step fx n s v o s' :
+  fx_maplabel fx = true -> N.of_nat n < 2 ^ 31 ->
+  MInv n s -> leaf s v -> op_guard fx n (view s v) o ->
+  mstep fx s (MData v o) = Ok s' -> MInv n s'.
+Proof.
+  intros F Hn [W I] L G H. simpl in H.
+  rewrite (fstep_ext fx _ (mapped (f_map (view s v))) (view s v) o (fun sv => map_label_fixed fx s v sv W F)) in H.
+  destruct (fstep fx (mapped (f_map (view s v))) (view s v) o) as [new| |] eqn:E; try discriminate.
+  apply Ok_inj in H. subst s'.
+  destruct (consistent_step fx n (view s v) o new Hn (I v) G E) as [Cn Sn].
+  destruct (fstep_grows fx _ (view s v) o new E) as [Gv Gm].
+  split; [now apply write_back_wf|]. intro u.
+  destruct (N.eq_dec u v) as [->|Hu].
+  - assert (feqv (view (write_back s v (view s v) new) v) new) as Q
+        by (intro k; apply (view_write_back s v new W Gv Gm k)).
+    split; [apply (consistent_feqv _ new Q Cn) | apply (sized_feqv n _ new Q Sn)].
+  - rewrite view_isolated; [apply I | exact W | now apply L].
+Qed.
+
+Theorem machine_newversion fx n s p c s' :
+  MInv n s -> fresh_version s c -> mstep fx s (MNewVersion p c) = Ok s' -> MInv n s'.
+Proof.
+  intros [W I] F H. destruct (newversion_view fx s p c s' W F H) as (W' & Hu & Hc).
+  split; [exact W'|]. intro u. destruct (N.eq_dec u c) as [->|Hn].
+  - destruct (I p) as [Cp Sp]. split; [apply (consistent_feqv _ (view s p) Hc Cp) | apply (sized_feqv n _ (view s p) Hc Sp)].
+  - rewrite (Hu u Hn). apply I.
+Qed.
+
+(* every state reachable by requests that respect the documented contracts *)
+Inductive reach (fx : fixes) (n : nat) : mstate -> Prop :=
+| reach_init : reach fx n m_init
+| reach_data s v o s' :
+    reach fx n s -> leaf s v -> op_guard fx n (view s v) o -> mstep fx s (MData v o) = Ok s' -> reach fx n s'
+| reach_new s p c s' :
+    reach fx n s -> fresh_version s c -> mstep fx s (MNewVersion p c) = Ok s' -> reach fx n s'.
+
+Theorem reach_inv fx n s :
+  fx_maplabel fx = true -> N.of_nat n < 2 ^ 31 -> reach fx n s -> MInv n s.
+Proof.
+  intros F Hn R. induction R.
+  - split; [apply mwf_init|]. intro u. split; [apply consistent_init | intros b a H; discriminate].
+  - eapply machine_step; eauto.
+  - eapply machine_newversion; eauto.
+Qed.
